@@ -214,7 +214,7 @@ def _universe(vals):
   out=[]; seen=set()
   def add(x):
     try: hash(x)
-    except TypeError: return             # unhashable objects cannot be members of the sets / keys of the dicts the clauses speak about
+    except Exception: return             # unhashable (or not yet initialised) objects cannot be members of the sets / keys of the dicts the clauses speak about
     try: h=(type(x).__name__,x) if isinstance(x,(int,str,bool,type(None))) else id(x)
     except Exception: h=id(x)
     if h not in seen: seen.add(h); out.append(x)
